@@ -228,6 +228,10 @@ def gen_file_name(rng):
     """Returns (relative path parts, description class)."""
     style = rng.random()
     ext = rng.choice([".dsdl", ".dsdl", ".dsdl", ".uavcan"])
+    if style < 0.05:
+        # a second file defining the same name and version as the well-formed Ok.1.0.dsdl that is always present
+        twin = rng.choice(["Ok.1.0.uavcan", "7000.Ok.1.0.dsdl", "7000.Ok.1.0.uavcan", "6500.Ok.1.0.dsdl"])
+        return ([rng.choice(["ok", "nested"])] if rng.random() < 0.2 else []) + [twin], "twin-of-existing"
     if style < 0.35:
         # right component count, hostile parts
         port = [rng.choice(NUM_PARTS)] if rng.random() < 0.5 else []
